@@ -9,11 +9,71 @@ package packet
 // Property C16: decoding is total. Every function reachable from Decode gets a
 // safety-only contract (no panic for any buffer contents and options); the
 // contracts below add the facts callers need.
-//@ sweep Decode props C16
+// With option frame every swept function also gets the default frame: it writes
+// only objects passed to it by pointer and objects it allocated itself.
+//@ sweep Decode props C16 frame
 
+//@ spec
+//@ func spec_isBGPError(e error) bool {
+//@ 	_, ok := e.(BGPError)
+//@ 	return ok
+//@ }
+//@ // the type octet of the message at the head of the buffer (0 if there is none)
+//@ func spec_byteAt(buf *bytes.Buffer, k int) uint8 {
+//@ 	b := buf.Bytes()
+//@ 	if k < 0 || k >= len(b) {
+//@ 		return 0
+//@ 	}
+//@ 	return b[k]
+//@ }
+//@ func spec_msgType(buf *bytes.Buffer) uint8 { return spec_byteAt(buf, 18) }
+//@ func spec_errCode(e error) uint8 {
+//@ 	b, ok := e.(BGPError)
+//@ 	if !ok {
+//@ 		return 0
+//@ 	}
+//@ 	return b.ErrorCode
+//@ }
+//@ end
+
+// Property C21: a decoding error must reach the FSM as a BGPError (the FSM sends
+// the NOTIFICATION from its code and subcode), with the code of the part of the
+// message that is malformed: 1 header, 2 OPEN, 3 UPDATE.
 //@ contract Decode
 //@   props C16 C21
 //@   requires buf != nil && opt != nil
+//@   modifies buf
+//@   old typ0 uint8 = spec_msgType(buf)
+//@   ensures[C21] result1 != nil && typ0 != NotificationMsg ==> spec_isBGPError(result1)
+//@   ensures result1 == nil ==> result0 != nil && result0.Header != nil && result0.Header.Type == typ0
+
+// Property C22: an OPEN is acceptable only with version 4, a non-zero identifier
+// and a hold time of 0 or at least 3 seconds; the error names the cause.
+//@ spec
+//@ func spec_errSub(e error) uint8 {
+//@ 	b, ok := e.(BGPError)
+//@ 	if !ok {
+//@ 		return 0
+//@ 	}
+//@ 	return b.ErrorSubCode
+//@ }
+//@ end
+
+//@ contract validateOpen
+//@   props C22
+//@   requires msg != nil
+//@   ensures result == nil ==> msg.Version == BGP4Version && msg.BGPIdentifier != 0 && (msg.HoldTime == 0 || msg.HoldTime >= 3)
+//@   ensures result != nil ==> spec_isBGPError(result) && spec_errCode(result) == OpenMessageError
+//@   ensures msg.Version != BGP4Version ==> spec_errSub(result) == UnsupportedVersionNumber
+//@   ensures msg.Version == BGP4Version && msg.BGPIdentifier == 0 ==> spec_errSub(result) == BadBGPIdentifier
+//@   ensures msg.Version == BGP4Version && msg.BGPIdentifier != 0 && msg.HoldTime != 0 && msg.HoldTime < 3 ==> spec_errSub(result) == UnacceptableHoldTime
+//@   modifies nothing
+
+//@ contract SerializeNotificationMsg
+//@   props C17 C21
+//@   requires msg != nil
+//@   ensures len(result) == 21 && result[16] == 0 && result[17] == 21 && result[18] == NotificationMsg
+//@   ensures len(result) == 21 && result[19] == msg.ErrorCode && result[20] == msg.ErrorSubcode
 
 //@ spec
 //@ func spec_isASPath(v interface{}) bool {
@@ -25,7 +85,12 @@ package packet
 //@ contract decodeHeader
 //@   props C16 C21
 //@   nonnil
+//@   old typ0 uint8 = spec_byteAt(buf, 18)
 //@   ensures result1 == nil ==> result0 != nil
+//@   ensures[C21] result1 != nil ==> spec_isBGPError(result1)
+//@   ensures[C21] result1 == nil ==> result0.Type == typ0 && result0.Type >= OpenMsg && result0.Type <= KeepaliveMsg
+//@   loop 0 vars i int
+//@   loop 0 invariant i >= 0 && i <= 16 && spec_byteAt(buf, 18-i) == typ0
 
 // Property C19 (decoder boundary): a successful decode consumed exactly what the
 // length fields declared, and the three UPDATE lengths add up without wrap-around.
